@@ -199,6 +199,14 @@ class AtomRun:
         yield "pos"
         if self.a["kind"] == "oper" and self.a["op"] != "()":
             return
+        if self.a["fam"].startswith("kwnames") and len(tup) == 1:
+            # one-argument keyword calls under every parameter name of the set and a bogus one
+            if tup[0] in ("1", "1.5", "str", "VA"):
+                for nm in L.keyword_names(self.a):
+                    yield "kwn:" + nm
+            if self.a["kind"] == "static" and verdict[0] != "unjudged":
+                yield "inst"
+            return
         if verdict[0] == "native" and len(tup) >= 1:
             yield "kw"
             if len(tup) >= 2:
@@ -242,6 +250,8 @@ class AtomRun:
             pos, kw = args[:1], dict((names[i], args[i]) for i in range(1, len(args)))
         elif form == "kwbad":
             pos, kw = args[:-1], {"zz_bad": args[-1]}
+        elif form.startswith("kwn:"):
+            pos, kw = [], {form[4:]: args[0]}
         elif form == "inst":
             fn = getattr(self.inst, L.fn_name(a))
         before = env.live()
@@ -342,7 +352,8 @@ class AtomRun:
             extra_temp = ":+temp-ctor" if rest else ":temp-order"
         if res != ores:
             return fail("different return value", {"calls": ocalls, "res": ores})
-        return ("dispatch-ok:" + verdict[2] + (":" + form if form != "pos" else "") + extra_temp, None)
+        flab = "kwname" if form.startswith("kwn:") else form
+        return ("dispatch-ok:" + verdict[2] + (":" + flab if form != "pos" else "") + extra_temp, None)
 
     def run(self, values, only_call=None, progress=None):
         a = self.a
@@ -361,11 +372,16 @@ class AtomRun:
                     v = L.verdict(aconst, tup) if aconst["ovs"] else ("error", ["TypeError"], "const")
                 for form in self.forms(tup, v):
                     idx += 1
+                    vform = v
+                    if form.startswith("kwn:"):
+                        base = aconst if mode == "c" else a
+                        vform = (L.kwname_verdict(base, tup, form[4:]) if base["ovs"]
+                                 else ("error", ["TypeError"], "const"))
                     if only_call is not None and idx != only_call:
                         continue
                     if progress:
                         progress("%d:%d %s %s %s" % (a["n"], idx, mode, form, ",".join(tup)))
-                    lab, det = self.one(mode, tup, form, v)
+                    lab, det = self.one(mode, tup, form, vform)
                     ncalls += 1
                     shape = L.known_shape(a, det) if (det is not None and lab == "FAIL") else None
                     if shape:
